@@ -51,6 +51,14 @@ func textSpace(tier string) []Operand {
 	for ex := int32(-2003); ex <= -1997; ex++ {
 		out = append(out, Fin(0, ex, false), Fin(0, ex, true))
 	}
+	// zeros of every exponent down to the end of the plain-notation exception, and 1 / 7 / 25 at every exponent in
+	// [-300, 300]: every length of zero run the plain formatter can be asked to write
+	for ex := int32(-2100); ex <= 6; ex++ {
+		out = append(out, Fin(0, ex, ex%2 == 0))
+	}
+	for ex := int32(-300); ex <= 300; ex++ {
+		out = append(out, Fin(1, ex, false), Fin(7, ex, true), Fin(25, ex, false))
+	}
 	for _, ex := range []int32{-100000, -99999, -2500, -30, 5, 30, 99999, 100000} {
 		out = append(out, Fin(0, ex, false), Fin(0, ex, true))
 	}
